@@ -58,7 +58,7 @@ def run(ctx):
 
 def run_conformance(ctx, box, th):
     out = ctx.go_test("internal/filter", "^TestVerif_C28$", timeout=1700)
-    n, bad, lines = ctx.check_records("Fn_Glob", os.path.join(out, "recs.ndjson"), shard=ctx.pick(420, 1100), timeout=1500)
+    n, bad, lines = ctx.check_records("Fn_GlobRec", os.path.join(out, "recs.ndjson"), shard=ctx.pick(420, 1100), timeout=1500)
     bad = bad[:150]
     bad_recs = [json.loads(lines[i - 1]) for i in bad]
     exps = diagnose(ctx, bad_recs) if bad_recs else []
@@ -93,7 +93,7 @@ def run_conformance(ctx, box, th):
             key = "glob/%s/%s" % ("+".join(kinds) or "other", features(r))
         small = {k: r[k] for k in ("raw", "pats", "alpha", "depth", "fold", "via", "single", "err", "panic", "panicv", "valerr")}
         small.update({"deviation": dev, "children_may_match_false_above_a_match": child})
-        ctx.violate(key, "pattern list %s (via %s%s) on all paths of <=%d components over %s: real results are not the ones Fn_Glob!RecOK "
+        ctx.violate(key, "pattern list %s (via %s%s) on all paths of <=%d components over %s: real results are not the ones Fn_GlobRec!RecOK "
                          "allows: %s%s%s" % (r["raw"], r["via"], ", case-insensitive" if r["fold"] else "", r["depth"], r["alpha"],
                                              json.dumps(dev)[:400], (" child-unsound " + json.dumps(child)[:300]) if child else "",
                                              " err=%s panic=%s %s valerr=%s" % (r["err"], r["panic"], r.get("panicv", ""), r["valerr"])), small)
@@ -114,7 +114,7 @@ def run_conformance(ctx, box, th):
                           "lemmas": ["RefinesMatch", "ChildSound", "RefinesList", "ArrOK"],
                           "negative_twins_refuted": ["TwinMatch", "TwinChild", "TwinList"]}}
     return verif.finish(ctx, "exploration", cov,
-                        ["oracle = Fn_Glob.tla, written from doc/040_backup.rst and the filepath.Match documentation; TLC evaluates RecOK on every record",
+                        ["oracle = Fn_Glob.tla (judge of records: Fn_GlobRec.tla), written from doc/040_backup.rst and the filepath.Match documentation; TLC evaluates RecOK on every record",
                          "the Go driver composes the pattern text from [neg, abs, components] (with the equivalent spellings trailing '/', '//', './', '/.') and the spec judges the structured form",
                          "glob syntax of components and characters of path components come from the finite tables AtomTab/CompTab of the spec",
                          "for malformed patterns only 'ValidatePatterns rejects' and 'no panic' are demanded; for children-may-match only the soundness direction",
